@@ -327,7 +327,7 @@ impl<'a> Sim<'a> {
         if f >= self.p.fns.len() { return Out::Err; }
         let fu = &self.p.fns[f];
         let nogc = fu.nogc;
-        if self.inl && fu.is_leaf() {
+        if self.inl && fu.is_leaf() && !nogc {
             self.stack.push(Frame { nogc, state: 2 });
             self.safepoint();
             self.stack.pop();
@@ -367,13 +367,13 @@ impl<'a> Sim<'a> {
             Stmt::Brk => Out::Brk,
             Stmt::Cont => Out::Cont,
             Stmt::Ret(e) => {
+                let r = self.expr(e, n);
+                if r != Out::Normal { return r; }
                 if nogc {
                     if self.depth == 0 { return Out::Underflow; }
                     self.depth -= 1;
                     if let Some(f) = self.stack.last_mut() { f.state = 1; }
                 }
-                let r = self.expr(e, n);
-                if r != Out::Normal { return r; }
                 Out::Ret
             }
             Stmt::Def(_) => { self.safepoint(); Out::Normal }
@@ -388,6 +388,8 @@ fn simulate(p: &Prog, inl: bool, d0: u64, limit: u64) -> [i64; 8] {
     for _ in 0..p.ndefs() { s.safepoint(); }
     if r == Out::Normal { r = s.block(&p.main, p.n0, 0, false); }
     let class = match r { Out::Normal | Out::Brk | Out::Cont | Out::Ret => 0, Out::Err => 1, Out::Underflow => 2, Out::Limit => 3 };
+    // run_fast puts no_gc_depth back to its value at entry when the run fails
+    if class == 1 { s.depth = s.d0; }
     let leak = s.depth as i64 - s.d0 as i64;
     [class, s.depth as i64, s.total as i64, s.nogc as i64, s.flagged as i64, s.n_ret as i64, s.n_inl as i64, leak]
 }
@@ -578,7 +580,6 @@ fn main() {
     quiet_panics();
     let seed = arg_u64("--seed", 0);
     let sessions = arg_u64("--sessions", 50);
-    let known_pct = arg_u64("--known-pct", 25);
     let opts: Vec<u32> = arg("--opts").unwrap_or("0,1,2,3".into()).split(',').filter_map(|s| s.parse().ok()).collect();
     let corpus = arg("--corpus");
     if flag("--probe-order") {
@@ -596,6 +597,19 @@ fn main() {
             else if c.1 == 0 && d == 0 { "RetExitFirst" } else if c.1 == 1 && d == 0 { "RetExitAfterExpr" }
             else if c.1 == 1 && d == 1 { "RetNoExit" } else { "PROBE-FAILED" };
         println!("{} class={} safepoints={} at_depth>0={} depth_after={}", verdict, r.class, c.0, c.1, d);
+        // does a failed run put no_gc_depth back?  (fresh VM; the failing operation is NOT in a return expression)
+        let mut vm2 = aelys_driver::new_vm_with_config(Default::default(), Vec::new()).unwrap();
+        let _ = run_on_vm(&mut vm2, PRELUDE, 0, 1_000_000);
+        let r2 = run_on_vm(&mut vm2, "@no_gc\nfn pr_h(n, z) {\n  zq = 10 / z\n  return n\n}\npr_h(1, zz)\n", 0, 1_000_000);
+        let restores = match (r2.class.as_str(), vm2.no_gc_depth()) { ("runtime:DivisionByZero", 0) => "true", ("runtime:DivisionByZero", 1) => "false", _ => "PROBE-FAILED" };
+        // does the inliner leave @no_gc functions alone?  (-O2; `a + b` as trailing value)
+        let mut vm3 = aelys_driver::new_vm_with_config(Default::default(), Vec::new()).unwrap();
+        let _ = run_on_vm(&mut vm3, PRELUDE, 2, 1_000_000);
+        verif::gc_counters_reset();
+        let r3 = run_on_vm(&mut vm3, "@no_gc\nfn pr_g(a, b) { a + b }\nacc = pr_g(acc, sx)\nacc\n", 2, 1_000_000);
+        let c3 = verif::gc_counters();
+        let skips = if r3.class != "ok" || c3.0 != 2 { "PROBE-FAILED" } else if c3.1 == 1 { "true" } else { "false" };
+        println!("error_restores_depth={} inliner_skips_no_gc={}", restores, skips);
         return;
     }
     if let Some(file) = arg("--raw") {
@@ -627,29 +641,23 @@ fn main() {
         }
         let mut rng = Rng::new(seed);
         for s in 0..sessions {
-            let known = rng.below(100) < known_pct;
+            let known = true;   // unrestricted: the three former defect classes are repaired and part of the stream
             let n_in = 1 + rng.below(4);
             let mut progs = vec![];
             let mut d = 0u64;
             for _ in 0..n_in {
-                // rejection: programs must terminate quickly; outside the known classes they must not
-                // execute a return-expression safepoint in a region, an inlined @no_gc leaf, or fail inside a region
-                let mut tries = 0;
+                // rejection: programs must terminate quickly
                 loop {
-                    tries += 1;
                     let p = gen_prog(&mut rng, known);
                     let a = simulate(&p, false, d, 3000);
                     let b = simulate(&p, true, d, 3000);
                     if a[0] >= 2 || b[0] >= 2 { continue; }
-                    let in_known = a[5] > 0 || a[6] > 0 || b[5] > 0 || b[6] > 0 || a[7] != 0 || b[7] != 0;
-                    if !known && in_known && tries < 200 { continue; }
-                    if !known && in_known { continue; }
                     d = a[1] as u64;
                     progs.push(p);
                     break;
                 }
             }
-            run_session(&format!("{}{}", if known { "k" } else { "c" }, s), &progs, &opts);
+            run_session(&format!("s{}", s), &progs, &opts);
         }
     }).unwrap();
     handle.join().unwrap();
